@@ -30,7 +30,7 @@ def _replay(rep, r):
 def run(tier, seed):
     return run_property(
         "C04", tier, seed, level="other",
-        deductive=[("c04_graph", None), ("c04_shape", None), ("c04_dupgraph", r"^C04\.dup"), ("c_op", r"^C04\.base|^op\.")],
+        deductive=[("c04_graph", None), ("c04_shape", None), ("c04_dupgraph", r"^C04\.dup"), ("c13_inplace", r"^C04\.inplace"), ("c_op", r"^C04\.base|^op\.")],
         bounded=[("graph_bounded.py", ["--check", "C04"]), ("graph_bounded.py", ["--check", "C04h"])],
         replay=_replay,
         trusted=["NumPy itself (values, np.shares_memory, ownership) is the specification of every statement", "pyvc heap model of Tensor/Operation fields"],
